@@ -35,12 +35,14 @@ pub enum Hk {
     WeakSender,
     WeakCaller,
     Join,
+    /// a parked `Sender::send` future: keeps the mailbox open (it owns a clone of the channel sender) but is no handle
+    Fut,
     None,
 }
 
 impl Hk {
     pub fn strong(self) -> bool {
-        matches!(self, Hk::Addr | Hk::Owning | Hk::Sender | Hk::Caller)
+        matches!(self, Hk::Addr | Hk::Owning | Hk::Sender | Hk::Caller | Hk::Fut)
     }
 }
 
@@ -77,6 +79,7 @@ pub enum OpK {
     AwaitRef,
     Join,
     JoinPark,
+    AwaitParked,
     QueryStopped,
     QueryRunning,
     Yield,
